@@ -23,7 +23,7 @@ def main():
         sh(f"git -C /repo worktree add -q --detach {repo} HEAD")
         demo = open(os.path.join(sd, "demo.py")).read()
         # the demos hard-code their worktree path: point them at the scratch copy
-        demo = re.sub(r"/tmp/seed[23]?_C\d+", repo, demo)
+        demo = re.sub(r"/tmp/seed\d*_C\d+", repo, demo)
         dpath = os.path.join(tmp, "demo.py")
         open(dpath, "w").write(demo)
         rc0, out0 = sh(f"/venv/bin/python {dpath}", cwd=tmp, timeout=1200)
